@@ -232,6 +232,11 @@ var scenarios = []scenario{
 			if r == 0 {
 				return
 			}
+			halfClosed := false
+			if rng.Intn(2) == 0 { // the remote side has half-closed already: the client's CloseSend is what ends the stream
+				halfClosed = w.Step(sys.Stim{K: "hstep", A: "closesend"})
+				w.Flow(8, nil)
+			}
 			a := w.FreeThread()
 			if a == "" || !w.Step(sys.Stim{K: "op", T: a, Op: "SendG", R: r}) || w.Last().App[a] != "ma" {
 				return
@@ -243,9 +248,15 @@ var scenarios = []scenario{
 				}
 			}
 			if b := w.FreeThread(); b != "" {
-				w.Step(sys.Stim{K: "op", T: b, Op: []string{"CloseSend", "CloseSend", "Close", "SendErr"}[rng.Intn(4)], R: r})
+				op := []string{"CloseSend", "CloseSend", "Close", "SendErr"}[rng.Intn(4)]
+				if halfClosed {
+					op = "CloseSend"
+				}
+				w.Step(sys.Stim{K: "op", T: b, Op: op, R: r})
 			}
-			w.Step(sys.Stim{K: "hstep", A: []string{"reterr", "reterr", "retnil"}[rng.Intn(3)]})
+			if !halfClosed || rng.Intn(2) == 0 {
+				w.Step(sys.Stim{K: "hstep", A: []string{"reterr", "reterr", "retnil"}[rng.Intn(3)]})
+			}
 			w.Flow(12, nil) // the remote end of the stream reaches the client's reader
 			if d := w.FreeThread(); d != "" && w.NRPC() < sys.MaxRPC-1 {
 				w.Step(sys.Stim{K: "start", T: d, Op: []string{"Invoke", "NewStream"}[rng.Intn(2)], Md: "none"})
